@@ -51,4 +51,6 @@ def doc_history_alphabet(tier, with_values=None, rich=False):
             ops.append(("at", an, v))
     # the two in-place editors that do not go through add_attributes
     ops += [("asrt", "q_prov"), ("settime", "start", "t2"), ("settime", "end", "t1")]
+    # asserted types in a namespace the container has not seen / whose prefix it binds to another URI
+    ops += [("asrt", "q_fooC"), ("asrt", "q_exB")]
     return ops
